@@ -6,9 +6,9 @@ from common import tlc, tlc_ok, tlc_must_fail, build_driver, run_driver, judge, 
 WHY = {"C03": {"accept", "errclass", "compile"}, "C04": {"tree", "paren", "results"}, "C12": {"coords", "errclass"}}
 
 TIERS = {
-    "quick":    dict(mc_lang="MC_Lang_quick.cfg", mc_sent="MC_Sent_quick.cfg", tokN=4, nearN=4, juxtaN=3, chars=[("full", 3), ("small", 4)],
+    "quick":    dict(mc_lang="MC_Lang_quick.cfg", mc_sent="MC_Sent_quick.cfg", tokN=4, nearN=4, juxtaN=3, wrapN=5, chars=[("full", 3), ("small", 4)],
                      sentN=5, chains=3, rtext=4000, rtoks=400, maxlen=30),
-    "thorough": dict(mc_lang="MC_Lang_thorough.cfg", mc_sent="MC_Sent_thorough.cfg", tokN=4, nearN=5, juxtaN=3, chars=[("full", 4)],
+    "thorough": dict(mc_lang="MC_Lang_thorough.cfg", mc_sent="MC_Sent_thorough.cfg", tokN=4, nearN=5, juxtaN=3, wrapN=6, chars=[("full", 4)],
                      sentN=6, chains=4, rtext=60000, rtoks=6000, maxlen=60),
 }
 
@@ -61,6 +61,12 @@ def run(prop, tier, seed, work, ev):
         c = work.path("juxta.cases")
         gen(work, "juxta", c, t["juxtaN"])
         rejects += run_and_judge("juxtapositions S1 S2 and (S1) S2 of sentences <= %d tokens" % t["juxtaN"], c, work, ev, drv, prop)
+        c = work.path("wrap.cases")
+        gen(work, "wrap", c, t["wrapN"])
+        rejects += run_and_judge("parentheses around every span of every sentence <= %d tokens" % t["wrapN"], c, work, ev, drv, prop)
+        c = work.path("amp.cases")
+        gen(work, "amp", c, 0)
+        rejects += run_and_judge("an ampersand before every token of 30 skeleton sentences with calls", c, work, ev, drv, prop)
         c = work.path("uni.cases")
         gen(work, "uni", c, 0)
         rejects += run_and_judge("Unicode class probes (non-ASCII digits, letters, blanks, controls) after every token-starting character", c, work, ev, drv, prop)
